@@ -51,7 +51,8 @@ def exc_sx(e, root=None):
             return ['err', ['BadCompressedFile']]
         return ['err', ['OSError', ERRNO_NAMES.get(e.errno, e.errno)]]
     import lzma
-    if isinstance(e, (lzma.LZMAError, EOFError)):
+    import zlib
+    if isinstance(e, (lzma.LZMAError, EOFError, zlib.error)):
         return ['err', ['BadCompressedFile']]
     for cls, name in INTERNAL:
         if isinstance(e, cls):
